@@ -2,8 +2,6 @@
 
 package recorder
 
-import "time"
-
 // Helper definitions of internal/recorder (all in format_mpegts.go) and the shapes their callers use:
 //
 //	multiplyAndDivide
@@ -14,25 +12,11 @@ import "time"
 //	  format_mpegts.go (11 sites), format_fmp4.go:644,678,825 (clockRate = format.ClockRate()),
 //	  format_fmp4_track.go:24,36,87,119, format_fmp4_part.go:79, format_fmp4_segment.go:205
 //	  (clockRate = int(initTrack.TimeScale))                                                        ticks->ns
+//
+// Each helper registers itself from its own file (c24_h_*_test.go), so that a tree in which a helper was
+// removed or renamed still lets the driver build the other helpers of the package (optional harness files).
+var c24Registry []c24Helper
+
 func c24Helpers() (string, []c24Helper) {
-	return "internal/recorder", []c24Helper{
-		{
-			name:   "recorder.multiplyAndDivide",
-			fn:     multiplyAndDivide,
-			shapes: []c24Shape{c24TicksTo90k, c24NsToTicks},
-			maxM:   c24MaxRateU, // the only rate passed as m is a uint32 time scale
-		},
-		{
-			name: "recorder.multiplyAndDivide2",
-			fn: func(v, m, d int64) int64 {
-				return int64(multiplyAndDivide2(time.Duration(v), time.Duration(m), time.Duration(d)))
-			},
-			shapes: []c24Shape{c24TicksToNs},
-		},
-		{
-			name:   "recorder.timestampToDuration",
-			fn:     func(v, _, d int64) int64 { return int64(timestampToDuration(v, int(d))) },
-			shapes: []c24Shape{c24TicksToNs},
-		},
-	}
+	return "internal/recorder", c24Registry
 }
